@@ -7,7 +7,7 @@ mkdir -p "$WORK"
 PROPS="C01 C02 C03 C04 C05 C06 C07 C08 C09 C10 C11 C12 C14 C15 C16 C17 C18 C19 C20"
 one() {
   d=$1; id=$(basename "$d"); w="$WORK/$id"
-  mkdir -p "$w/repo" && cp -r /repo/src "$w/repo/src"
+  mkdir -p "$w/repo" && cp -r "${SEED_SRC:-/repo/src}" "$w/repo/src"
   if ! (cd "$w/repo" && patch -p1 -s --fuzz=0 < "$d/patch.diff" >/dev/null 2>&1); then echo "$id APPLY-FAILED"; rm -rf "$w"; return; fi
   res=""
   for p in $PROPS; do
@@ -20,6 +20,6 @@ one() {
   echo "$id${res:- none}"
   rm -rf "$w"
 }
-export -f one; export WORK PROPS
+export -f one; export WORK PROPS SEED_SRC
 ls -d "$ROOT"/C*-[a-z] | xargs -P 12 -I{} bash -c 'one {}'
 rm -rf "$WORK"
